@@ -22,6 +22,12 @@ def check_C18(run):
             kinds.add(("enum", tuple(r["imports"]), tuple(r["decls"]), r["unknown"]))
             if len([s for s in run.samples if s["family"] == "enum"]) < 2 and "fmt" in r["imports"]:
                 run.samples.append({"family": "enum", "unknown": r["unknown"], "map": r["map"], "imports": r["imports"], "decls": r["decls"]})
+    import fam_struct
+    summ4, obs4 = fam_struct.pipeline(run)
+    for r in read_ndjson(obs4):
+        if r.get("gen") == "ok" and "imports" in r:
+            n += 1
+            kinds.add(("struct", r["kind"], tuple(r["imports"]), tuple(r["decls"])))
     summ3, obs3 = fam_calls.pipeline(run)
     for r in read_ndjson(obs3):
         if not r["exec"] and r["gen"] == "ok":
@@ -29,7 +35,7 @@ def check_C18(run):
             kinds.add(("calls", tuple(r["imports"]), tuple(r["decls"])))
     run.assumptions = ["the emitted files are parsed with go/parser by the harness; import paths are mapped to roles (user package, enum packages)",
                        "struct output format only; output:raw, wrapErrors and wrapErrorsUsing are not enumerated here"]
-    return run.finish("AST of every file emitted in the rules family (type shapes incl. named types and unsafe.Pointer), the enum family (fmt exactly with @error/@panic actions) and the calls family; "
+    return run.finish("AST of every file emitted in the rules family (type shapes incl. named types and unsafe.Pointer), the enum family (fmt exactly with @error/@panic actions), the struct family (field selection, update methods with zero-value guards) and the calls family (wrapErrorsUsing package exactly when a wrap is emitted); "
                       "TLC validates import set = owners of used types (+fmt) and top-level declarations = one struct + its methods; distinct = distinct (family, imports, declarations)", n, len(kinds))
 
 
